@@ -38,9 +38,9 @@ def case_strategy(draw, big=False):
     case['pwr'] = gen.r6(draw(gen.logf(1e-3, 1e6))) if draw(st.booleans()) else None
     # (a power level may be requested without a distance: the field is then not divided by a distance but still
     # scaled to that power - the RD = 0 case of the original program)
-    case['dist'] = gen.r6(draw(gen.logf(1.0, 1e6))) if draw(st.integers(0, 4)) else None
+    case['dist'] = gen.r6(draw(gen.logf(1e-2, 1e6))) if draw(st.integers(0, 4)) else None
     case['pwr2'] = gen.r6(draw(gen.logf(1e-3, 1e6)))
-    case['dist2'] = gen.r6(draw(gen.logf(1.0, 1e6)))
+    case['dist2'] = gen.r6(draw(gen.logf(1e-2, 1e6)))
     # options that must not influence any number: time measurement
     case['timing'] = draw(st.integers(0, 3)) == 0
     # far-field requests made on the same solution before the one that is checked (0..2)
